@@ -21,8 +21,11 @@ EXTENDS Naturals, Sequences, FiniteSets, TLC
 
 CONSTANTS
   MM,    \* [root |-> class name,
-         \*  classes   |-> Seq of [name, named, attrs |-> Seq of [name, cont, many, typ]],
+         \*  classes   |-> Seq of [name, named, attrs |-> Seq of [name, cont, many, typ, alts]],
          \*  abstracts |-> Seq of [name, subs |-> Seq of rule names]]
+         \* typ is a rule name, or "OBJECT" for an attribute assigned at several
+         \* places with different rules, which are then listed in alts.
+         \* The rule hierarchy may contain diamonds and cycles.
   Dev    \* set of deviation clause names
 
 Range(s) == {s[i] : i \in 1..Len(s)}
@@ -44,18 +47,26 @@ ContAttrs(c) == SelectSeq(ClassOf(c).attrs, LAMBDA a : a.cont)
 RefAttrs(c)  == SelectSeq(ClassOf(c).attrs, LAMBDA a : ~a.cont)
 
 \* textx_isinstance on classes: a class conforms to itself, to OBJECT, and to
-\* every abstract rule one of whose alternatives it conforms to.
-RECURSIVE Conforms(_, _)
-Conforms(c, t) ==
+\* every abstract rule one of whose alternatives it conforms to (V: the abstract
+\* rules already being examined -- rules may refer to each other in a cycle,
+\* and a rule met again is skipped, the remaining alternatives still count).
+RECURSIVE ConfV(_, _, _)
+ConfV(c, t, V) ==
   \/ t = "OBJECT"
   \/ c = t
   \/ /\ "ClassNameOnly" \notin Dev
-     /\ t \in AbstractNames
-     /\ \E i \in 1..Len(SubsOf(t)) : Conforms(c, SubsOf(t)[i])
+     /\ t \in AbstractNames /\ t \notin V
+     /\ \E i \in 1..Len(SubsOf(t)) : ConfV(c, SubsOf(t)[i], V \cup {t})
+Conforms(c, t) == ConfV(c, t, {})
 
 ConcreteOf(t) == {c \in ClassNames : Conforms(c, t)}
 
-\* the same relation, declaratively: the leaves below t in the rule hierarchy
+\* classes of the objects a containment attribute can hold
+Allowed(at) == IF at.typ = "OBJECT" THEN Range(at.alts) ELSE ConcreteOf(at.typ)
+
+\* the same relation, declaratively: the leaves below t in the rule hierarchy,
+\* unfolded `fuel` times (enough: one more than the number of abstract rules)
+Fuel == Len(MM.abstracts) + 1
 RECURSIVE Below(_, _)
 Below(t, fuel) ==
   IF t \in ClassNames THEN {t}
@@ -94,7 +105,7 @@ WellFormed(g) ==
                /\ (~ca[i].many => Len(g.kids[o][i].e) <= 1)
                /\ \A j \in 1..Len(g.kids[o][i].e) :
                     LET k == g.kids[o][i].e[j] IN
-                    k \in Objs(g) /\ Conforms(g.cls[k], ca[i].typ)
+                    k \in Objs(g) /\ g.cls[k] \in Allowed(ca[i])
           /\ \A i \in 1..Len(ra) :
                /\ g.refs[o][i].a = ra[i].name
                /\ (~ra[i].many => Len(g.refs[o][i].names) <= 1)
